@@ -112,6 +112,7 @@ func checkC15(c *Ctx) {
 	})
 
 	c.stageTwice(usable, keys)
+	c.stageInitOrder(usable, keys)
 	c.stageMapOrder(usable, keys)
 	c.stageKnownMapOrder(usable, keys)
 	c.stageHistories(usable, keys)
@@ -165,6 +166,54 @@ func (c *Ctx) stageTwice(refs map[refKey]*Ref, keys []refKey) {
 	c.Logf("stage twice: %d re-runs in fresh processes", len(specs))
 }
 
+// ---- init-time map order: package init() functions range over maps too (tables of
+// validators, colours, computers...). Whole worker processes are started under a
+// permuted init-time order; every reference must still produce its trace.
+func (c *Ctx) stageInitOrder(refs map[refKey]*Ref, keys []refKey) {
+	rng := stream(c.Seed, "initorder")
+	modes := []string{"reverse", fmt.Sprintf("shuffle:%d", rng.Next()%1000000)}
+	if c.Tier == "thorough" {
+		for i := 0; i < 6; i++ {
+			modes = append(modes, fmt.Sprintf("shuffle:%d", rng.Next()%1000000), fmt.Sprintf("rotate:%d", rng.Next()%1000000))
+		}
+	}
+	nBad := 0
+	for _, m := range modes {
+		pool := NewPool(c.Build.SimWorker, c.Pool.args, []string{"VERIFSIM_INIT_ORDER=" + m}, c.Pool.n, c.Pool.timeout)
+		var specs []*Spec
+		var ks []refKey
+		for _, k := range keys {
+			if c.Tier == "quick" && rng.Intn(2) == 0 {
+				continue
+			}
+			sp := cloneSpec(refs[k].Spec)
+			sp.ID = "init/" + m + "/" + k.Scenario + "/" + k.Cfg
+			specs = append(specs, sp)
+			ks = append(ks, k)
+		}
+		results := pool.Run(specs, nil)
+		c.Pool.Runs += pool.Runs
+		for i, r := range results {
+			c.Ev.Absorb(c, specs[i], r)
+			c.Ev.Distinct(specs[i].ID)
+			if outcomeSig(r.op("t")) == outcomeSig(refs[ks[i]].Write) {
+				continue
+			}
+			nBad++
+			if nBad > 5 {
+				continue
+			}
+			d := c.firstTraceDiff(refs[ks[i]].Spec, specs[i], 0, 0, "t", "t")
+			c.Findings = append(c.Findings, &Finding{Class: "init-order", Scenario: ks[i].Scenario, Where: callKind(d),
+				Oracle: "trace must not depend on the map iteration order inside package init() functions",
+				Detail: fmt.Sprintf("worker started with VERIFSIM_INIT_ORDER=%s: %s vs reference %s (the diff shown is recomputed under canonical init order and may be empty; replay with the env var)", m, outcomeSig(r.op("t")), outcomeSig(refs[ks[i]].Write)),
+				Spec: specs[i], Spec2: refs[ks[i]].Spec, Expect: "init-order " + m})
+		}
+	}
+	c.Ev.Probes["init_order_process_modes"] = len(modes)
+	c.Logf("stage init-order: %d process modes, %d runs differing", len(modes), nBad)
+}
+
 // ---- 7.1 map-iteration schedules
 
 type planCase struct {
@@ -175,9 +224,9 @@ type planCase struct {
 func (c *Ctx) stageMapOrder(refs map[refKey]*Ref, keys []refKey) {
 	rng := stream(c.Seed, "maporder")
 	pin := c.pinnedIDs()
-	perRef := 4
+	perRef := 10
 	if c.Tier == "thorough" {
-		perRef = 24
+		perRef = 40
 	}
 	var cases []planCase
 	mk := func(k refKey, label string, plan OrderPlan) {
@@ -437,9 +486,9 @@ func (c *Ctx) stageKnownMapOrder(refs map[refKey]*Ref, keys []refKey) {
 
 func (c *Ctx) stageHistories(refs map[refKey]*Ref, keys []refKey) {
 	rng := stream(c.Seed, "history")
-	n := 40
+	n := 240
 	if c.Tier == "thorough" {
-		n = 1500
+		n = 4000
 	}
 	byScenario := map[string][]refKey{}
 	var names []string
@@ -708,9 +757,9 @@ func copyBoolMap(m map[int]bool) map[int]bool {
 
 func (c *Ctx) stageInterleave(refs map[refKey]*Ref, keys []refKey) {
 	rng := stream(c.Seed, "sched")
-	n := 60
+	n := 400
 	if c.Tier == "thorough" {
-		n = 3000
+		n = 8000
 	}
 	// prefer small documents: interleavings are about shared state, not size
 	var small []refKey
@@ -865,9 +914,9 @@ func (c *Ctx) stageRace(refs map[refKey]*Ref, keys []refKey) {
 		return
 	}
 	rng := stream(c.Seed, "race")
-	rounds := 6
+	rounds := 10
 	if c.Tier == "thorough" {
-		rounds = 120
+		rounds = 200
 	}
 	var small []refKey
 	for _, k := range keys {
